@@ -260,6 +260,51 @@ theorem loopback_admitted (disable : Bool) (s : State) (r : Req) (hloc : isLocal
   simp only [hloc, Bool.not_true, Bool.false_and, Bool.false_eq_true, if_false, loopbackOn, Bool.and_self, if_true]
   repeat (first | rfl | split)
 
+/-- with authentication disabled every request is admitted except the local-only refusals -/
+theorem disabled_admits (s : State) (r : Req) (h : isLocal r.origin = true ∨ protectedPath r.path = false) :
+    (authenticate true s r).2.verdict = .ok := by
+  unfold authenticate tokenAuthn
+  simp only [if_true]
+  rcases h with hl | hpr
+  · simp only [hl, Bool.not_true, Bool.false_and, Bool.false_eq_true, if_false, loopbackOn, Bool.and_self, if_true]
+    repeat (first | rfl | split)
+  · simp only [protectedPath, Bool.or_eq_false_iff] at hpr
+    obtain ⟨⟨p1, p2⟩, p3⟩ := hpr
+    simp only [p1, p2, p3, Bool.and_false, Bool.false_eq_true, if_false]
+    repeat (first | rfl | split)
+
+/-- **ctx_token_authenticated** — the token put into the request context (what the handlers
+see through `authn.Token(ctx)`) is never set unless `tokenAuthn` succeeded for exactly that
+user name: a non-empty context token is the user part of credentials that passed
+`cachedTokenAuthnCheck`. -/
+theorem ctx_token_authenticated (s : State) (r : Req) (tok : Bytes)
+    (h : (authenticate false s r).2.ctxToken = tok) (hne : tok ≠ []) :
+    ∃ p, parseBasic r.auth = some (tok, p) ∧ (cachedCheck s tok p).2 = true := by
+  have hct : (authenticate false s r).2.ctxToken =
+      (if (tokenAuthn false s r).2.2 = .ok ∧ (tokenAuthn false s r).2.1 ≠ [] then (tokenAuthn false s r).2.1 else []) := by
+    unfold authenticate
+    generalize tokenAuthn false s r = ta
+    obtain ⟨s', token, err⟩ := ta
+    simp only []
+    repeat (first | rfl | split)
+  rw [hct] at h
+  unfold tokenAuthn at h
+  simp only [Bool.false_eq_true, if_false] at h
+  cases hp : parseBasic r.auth with
+  | none => simp [hp] at h; exact absurd h hne
+  | some up =>
+    obtain ⟨u, p⟩ := up
+    simp only [hp] at h
+    cases hc : (cachedCheck s u p).2 with
+    | false => simp [hc] at h; exact absurd h hne
+    | true =>
+      simp only [hc, if_true, true_and] at h
+      by_cases hu : u = []
+      · simp [hu] at h; exact absurd h hne
+      · simp only [hu, ne_eq, not_false_eq_true, if_true] at h
+        subst h
+        exact ⟨p, rfl, hc⟩
+
 /-! ### the token store: what "issued and live" means -/
 
 theorem check_after_create (s : State) (id secret : Bytes) (h : (create s id secret).2 = .created) :
